@@ -131,15 +131,95 @@ fn title_text() -> BoxedStrategy<String> {
     .boxed()
 }
 
+/// Title-casing through another front-end: the tokens of a Markdown heading / quote / list item /
+/// emphasis cover exactly the plain title, so the result must equal title-casing the plain title
+/// (same characters, only case changes). Also checks `make_title_case` on a mid-document token
+/// sub-slice, as the IsNotTitleCase pattern calls it.
+pub fn test_markdown_equivalence(c: &(String, u8), ctx: &mut CaseCtx) -> Result<(), String> {
+    use harper_core::parsers::{Markdown, MarkdownOptions, Parser};
+    let (title, wrap) = c;
+    let dict = FstDictionary::curated();
+    let plain = make_title_case_str(title, &PlainEnglish, &dict);
+    let (pre, post) = match wrap % 6 {
+        0 => ("# ", ""),
+        1 => ("> ", ""),
+        2 => ("- ", ""),
+        3 => ("**", "**"),
+        4 => ("## ", "\n"),
+        _ => ("Intro paragraph here.\n\n### ", ""),
+    };
+    let md = format!("{pre}{title}{post}");
+    let chars: Vec<char> = md.chars().collect();
+    let parser = Markdown::new(MarkdownOptions::default());
+    let doc = Document::new(&md, &parser, &dict);
+    // the tokens that lie inside the title
+    let start = pre.chars().count();
+    let end = start + title.chars().count();
+    let toks: Vec<harper_core::Token> = doc
+        .get_tokens()
+        .iter()
+        .filter(|t| t.span.start >= start && t.span.end <= end && t.span.start < t.span.end)
+        .cloned()
+        .collect();
+    let plain_doc = Document::new(title, &PlainEnglish, &dict);
+    let same_tokens = toks.len() == plain_doc.get_tokens().len()
+        && toks.first().is_some_and(|t| t.span.start == start)
+        && toks.last().is_some_and(|t| t.span.end == end);
+    if !same_tokens {
+        ctx.class("markdown_tokenizes_differently");
+        return Ok(());
+    }
+    ctx.class(format!("wrap:{}", wrap % 6));
+    if title.split_whitespace().count() >= 3 {
+        ctx.nontrivial(c);
+    }
+    let got: String = harper_core::make_title_case(&toks, &chars, &dict).into_iter().collect();
+    if got != plain {
+        return Err(format!(
+            "title-casing the tokens of {:?} inside the Markdown document {:?} gives {:?}; title-casing the same text as plain English gives {:?}",
+            title, md, got, plain
+        ));
+    }
+    let _ = parser.parse(&chars);
+    Ok(())
+}
+
 pub fn run(run: &mut Run) {
     run.rule = "single-paragraph texts: 1-8 words drawn from dictionary words, short prepositions/articles/conjunctions, dictionary proper nouns in wrong case / with curly apostrophes, special words (ligatures, Turkish İ/ı, astral, hyphenated, contractions, numbers) with varied separators; plus G-TEXT paragraphs and harvested sentences; through make_title_case_str(PlainEnglish, curated). Non-trivial = >=3 word-like tokens incl. a small word or a proper noun; distinct by text.".into();
     let n = run.n(50_000, 3_000_000);
     run.prop("title_case", n, title_text, test_title);
     run.require_class("title_case", "has_small_word", (n / 10) as u64);
     run.require_class("title_case", "has_proper_noun", (n / 10) as u64);
+
+    let n = run.n(20_000, 500_000);
+    run.prop(
+        "markdown_title_equals_plain_title",
+        n,
+        || {
+            (title_text(), 0u8..6)
+                .prop_map(|(t, w)| {
+                    // keep to characters Markdown does not interpret
+                    let t: String = t
+                        .chars()
+                        .filter(|c| c.is_alphanumeric() || matches!(c, ' ' | ',' | '.' | '\'' | '’' | '-' | ':'))
+                        .collect();
+                    (t.trim().to_string(), w)
+                })
+                .prop_filter("non-empty", |(t, _)| !t.is_empty() && t.chars().next().is_some_and(|c| c.is_alphabetic()))
+                .boxed()
+        },
+        test_markdown_equivalence,
+    );
+    run.require_class("markdown_title_equals_plain_title", "wrap:0", (n / 20) as u64);
+    run.require_class("markdown_title_equals_plain_title", "wrap:5", (n / 20) as u64);
 }
 
-pub fn replay(_check: &str, case: Value, _run: &mut Run) -> Result<(), String> {
+pub fn replay(check: &str, case: Value, _run: &mut Run) -> Result<(), String> {
+    if check == "markdown_title_equals_plain_title" {
+        let c: (String, u8) = serde_json::from_value(case).map_err(|e| e.to_string())?;
+        let mut ctx = CaseCtx::default();
+        return test_markdown_equivalence(&c, &mut ctx);
+    }
     let c: String = serde_json::from_value(case).map_err(|e| e.to_string())?;
     let mut ctx = CaseCtx::default();
     test_title(&c, &mut ctx)
